@@ -228,6 +228,16 @@ class CondStr:
         return z3.Or(*[g for g, _ in toks]) if toks else z3.BoolVal(False)
 
 
+class GTok:
+    """element of a python list that was appended under a symbolic guard (if-merging): present iff guard"""
+
+    def __init__(self, guard, item):
+        self.guard, self.item = guard, item
+
+    def __repr__(self):
+        return "GTok<%r>" % (self.item,)
+
+
 class PhaseConf:
     """abstract phase configuration (list for sources/converters/..., dict for loads), assumption 4 of DESIGN section 4:
     (nonempty, contains(phase), value(phase)) with contains => nonempty"""
